@@ -39,10 +39,18 @@ struct Sched {
     cv: Condvar,
     base: usize,
     gen_id: usize,
+    queue_mode: bool,
 }
 
 impl Sched {
     fn role(&self, obj: usize) -> Option<&'static str> {
+        if self.queue_mode {
+            return match obj.checked_sub(self.base) {
+                Some(0) => Some("map"),
+                Some(1) => Some("tk"),
+                _ => None,
+            };
+        }
         if obj == self.gen_id {
             return Some("gen");
         }
@@ -261,6 +269,7 @@ pub fn run(modelrun: &str) {
             cv: Condvar::new(),
             base,
             gen_id,
+            queue_mode: false,
         });
         verif_sync::set_hook(Some(sc.clone() as Arc<dyn Hook>));
         let mut handles = Vec::new();
@@ -418,6 +427,190 @@ pub fn run(modelrun: &str) {
         }
         let e = model.call("IFACE");
         out::line(&format!("E {id} {e}"));
+        out::flush();
+    }
+}
+
+
+// ---------------------------------------------------------------------------------------------
+// The exported OrderQueue on its own, from several threads (second half of C08's quantifier).
+// Program line:  id|setup pushes (;)|thread ops (; within, # between)|sched
+//   ops: QPUSH <order> | QPOP | QREMOVE <id> | QFIND <id> | QLEN | QEMPTY | QVEC
+
+fn do_qcall(q: &pricelevel::OrderQueue, op: &str) -> String {
+    let t: Vec<&str> = op.split(' ').collect();
+    let oo = |o: Option<Arc<OrderType<()>>>| str_of_oorder(&o.map(|a| *a));
+    match t[0] {
+        "QPUSH" => {
+            q.push(Arc::new(order_of_str(t[1]).unwrap()));
+            "unit".into()
+        }
+        "QPOP" => format!("ord:{}", oo(q.pop())),
+        "QREMOVE" => format!("ord:{}", oo(q.remove(oid_of_str(t[1]).unwrap()))),
+        "QFIND" => format!("ord:{}", oo(q.find(oid_of_str(t[1]).unwrap()))),
+        "QLEN" => format!("num:{}", q.len()),
+        "QEMPTY" => format!("bool:{}", if q.is_empty() { 1 } else { 0 }),
+        "QVEC" => format!("vec:{}", list_str(&q.to_vec(), |o| str_of_order(o))),
+        _ => format!("error:{op}"),
+    }
+}
+
+pub fn run_queue(modelrun: &str) {
+    out::start_watchdog();
+    let mut model = Model::spawn(modelrun);
+    let stdin = std::io::stdin();
+    use std::io::BufRead;
+    for line in stdin.lock().lines() {
+        let line = line.unwrap();
+        if line.is_empty() {
+            continue;
+        }
+        let f: Vec<&str> = line.split('|').collect();
+        let (id, setup, threads, sched) = (f[0], f[1], f[2], f[3]);
+        out::line(&format!("P {id}"));
+        let base = verif_sync::next_id();
+        let q = Arc::new(pricelevel::OrderQueue::new());
+        model.call("QNEW");
+        for op in setup.split(';').filter(|s| !s.is_empty()) {
+            do_qcall(&q, op);
+            model.call(op);
+        }
+        out::line(&format!("I0 len={} vec={}", q.len(), list_str(&q.to_vec(), |o| str_of_order(o))));
+        let progs: Vec<Vec<String>> = threads
+            .split('#')
+            .map(|t| t.split(';').filter(|s| !s.is_empty()).map(|s| s.to_string()).collect())
+            .collect();
+        let n = progs.len();
+        let sc = Arc::new(Sched {
+            st: Mutex::new(St { running: None, granted: None, pending: vec![false; n], done: vec![false; n], log: Vec::new(), aborted: false }),
+            cv: Condvar::new(),
+            base,
+            gen_id: usize::MAX,
+            queue_mode: true,
+        });
+        verif_sync::set_hook(Some(sc.clone() as Arc<dyn Hook>));
+        let mut handles = Vec::new();
+        for (tid, prog) in progs.iter().enumerate() {
+            let (q, sc, prog) = (q.clone(), sc.clone(), prog.clone());
+            handles.push(std::thread::spawn(move || {
+                ME.with(|m| m.set(Some(tid)));
+                for (ci, op) in prog.iter().enumerate() {
+                    sc.st.lock().unwrap().log.push(format!("B {tid} {ci} {op}"));
+                    let r = catch_unwind(AssertUnwindSafe(|| do_qcall(&q, op)));
+                    let mut st = sc.st.lock().unwrap();
+                    match r {
+                        Ok(r) => st.log.push(format!("R {tid} {ci} {r}")),
+                        Err(_) => {
+                            if !st.aborted {
+                                st.log.push(format!("X panic in thread {tid} call {ci}"));
+                            }
+                            break;
+                        }
+                    }
+                }
+                let mut st = sc.st.lock().unwrap();
+                if st.running == Some(tid) {
+                    st.running = None;
+                }
+                st.done[tid] = true;
+                sc.cv.notify_all();
+            }));
+        }
+        let mut rng = Rng(0);
+        let mut explicit: Vec<usize> = Vec::new();
+        let mut random = false;
+        if let Some(sd) = sched.strip_prefix('r') {
+            rng = Rng(sd.parse().unwrap_or(1));
+            random = true;
+        } else {
+            explicit = sched.split(',').filter(|s| !s.is_empty()).map(|s| s.parse().unwrap()).collect();
+        }
+        let mut steps: usize = 0;
+        let mut taken: Vec<usize> = Vec::new();
+        let mut enabled_log: Vec<String> = Vec::new();
+        loop {
+            let mut st = sc.st.lock().unwrap();
+            let t0 = std::time::Instant::now();
+            loop {
+                let settled = st.running.is_none() && st.granted.is_none() && (0..n).all(|i| st.done[i] || st.pending[i]);
+                if settled {
+                    break;
+                }
+                let (g, to) = sc.cv.wait_timeout(st, Duration::from_millis(200)).unwrap();
+                st = g;
+                if to.timed_out() && t0.elapsed() > Duration::from_secs(5) {
+                    st.log.push("X timeout: a thread neither parked nor finished within 5 s".into());
+                    st.aborted = true;
+                    sc.cv.notify_all();
+                    break;
+                }
+            }
+            if st.aborted {
+                break;
+            }
+            let enabled: Vec<usize> = (0..n).filter(|&i| !st.done[i] && st.pending[i]).collect();
+            if enabled.is_empty() {
+                break;
+            }
+            if steps >= 20000 {
+                st.log.push("X budget: more than 20000 steps".into());
+                st.aborted = true;
+                sc.cv.notify_all();
+                break;
+            }
+            let pick = if steps < explicit.len() && enabled.contains(&explicit[steps]) {
+                explicit[steps]
+            } else if random {
+                enabled[(rng.next() % enabled.len() as u64) as usize]
+            } else {
+                enabled[0]
+            };
+            taken.push(pick);
+            enabled_log.push(enabled.iter().map(|t| t.to_string()).collect::<Vec<_>>().join("."));
+            steps += 1;
+            st.granted = Some(pick);
+            sc.cv.notify_all();
+        }
+        for h in handles {
+            let _ = h.join();
+        }
+        verif_sync::set_hook(None);
+        let log = std::mem::take(&mut sc.st.lock().unwrap().log);
+        let mut trace: Vec<String> = Vec::new();
+        let mut aborted = false;
+        for l in &log {
+            out::line(l);
+            if l.starts_with("S ") {
+                trace.push(l[2..].replace(' ', "~"));
+            }
+            if l.starts_with("X ") {
+                aborted = true;
+            }
+        }
+        out::line(&format!("K {}", taken.iter().map(|t| t.to_string()).collect::<Vec<_>>().join(",")));
+        out::line(&format!("N {}", enabled_log.join(",")));
+        if aborted {
+            out::line("Q aborted");
+            out::flush();
+            std::process::exit(4);
+        }
+        out::line(&format!("Q len={} empty={} vec={}", q.len(), if q.is_empty() { 1 } else { 0 }, list_str(&q.to_vec(), |o| str_of_order(o))));
+        let tl = progs.iter().map(|p| p.join(";").replace(' ', "~")).collect::<Vec<_>>().join("#");
+        model.call(&format!("QCTHREADS {tl}"));
+        let v = model.call(&format!("QCTRACE {}", trace.join(" ")));
+        out::line(&format!("V {v}"));
+        // drain: pop until empty; every listed order must come out exactly once
+        let mut popped = Vec::new();
+        out::arm(&format!("{id} drain"), 5000);
+        while let Some(o) = q.pop() {
+            popped.push(str_of_order(&o));
+            if popped.len() > 100000 {
+                break;
+            }
+        }
+        out::disarm();
+        out::line(&format!("D popped=[{}] len={}", popped.join(","), q.len()));
+        out::line(&format!("E {id} done"));
         out::flush();
     }
 }
